@@ -1222,7 +1222,14 @@ def gen_C19(seed, tier):
         names = [fr["name"] for fr in d.frames]
         cons, api = [], ["cs_new"]
         kinds = []
+        rows = 0
+        if mb.nv < 2:
+            continue
         for k in range(g.r.randint(1, 3)):
+            # ConstraintSet::Bind sizes its null-space workspace with dof_count - rows: keep rows <= dof
+            if rows + 3 > mb.nv:
+                break
+            rows += 3
             if g.r.random() < 0.5:
                 b = g.r.choice(names)
                 pt = g.vec(-1, 1)
@@ -1274,6 +1281,90 @@ def gen_C19(seed, tier):
             g.stats["cs:" + k] += 1
     out.append("@impl luarm")
     return finish(g, out, samples, len(sigs))
+
+
+
+# ------------------------------------------------------------------------------------------------
+# C20: independent instances share no hidden state
+def writable_globals(exe):
+    import subprocess, re
+    objs = json.load(open(exe + ".objs.json"))
+    found = {}
+    for src, obj in objs.items():
+        if os.sep + "harness" + os.sep in src:
+            continue
+        out = subprocess.run(["nm", "-C", obj], capture_output=True, text=True).stdout
+        for l in out.splitlines():
+            p = l.split(None, 2)
+            if len(p) == 3 and p[1] in "bBdDsSgGC":
+                found.setdefault(p[2].strip(), set()).add(os.path.basename(src))
+    return found
+
+
+def custom_C20(seed, tier, ctx):
+    """returns dict(violations=[(replay_payload, suffix)], coverage={...})"""
+    import subprocess
+    sys.path.insert(0, os.path.join(VERIF, "tools"))
+    import build_harness
+    repo = os.environ.get("VERIF_REPO", "/repo")
+    lua = [os.path.join(repo, "addons/luamodel/luamodel.cc"), os.path.join(repo, "addons/luamodel/luatables.cc")]
+    exe = build_harness.build("quick", "driver_threads", lua)
+    viol, cov = [], {}
+    if exe is None:
+        return {"violations": [({"kind": "build", "message": "thread harness does not compile"}, "no-failing-input-found")], "coverage": {}}
+    # (a) static tie: the writable globals of the freshly compiled objects are the declared ones
+    expected = json.load(open(os.path.join(VERIF, "tools", "globals_expected.json")))["symbols"]
+    found = writable_globals(exe)
+    extra = sorted(k for k in found if k not in expected)
+    cov["writable_globals"] = {k: sorted(v) for k, v in found.items()}
+    # (b) dynamic: N threads x N private instances, and interleaved single-thread histories
+    G.MODEL_EXE = ctx.get("exe_model")
+    parts = []
+    t1 = gen_generic("c20dyn", seed, tier, 10, 40, lambda g, mb: ["call ID", "call FD", "call CRBA 1", "call NE", "call MINV 1", "call COM 1", "call LTL"], fext_prob=0.5)[0]
+    t2 = gen_generic("c20kin", seed + 1, tier, 8, 30, calls_C06)[0]
+    t3 = gen_C19(seed + 2, tier)[0]
+    # only self-contained cases (skip twin directives), Lua temp files are per interpreter
+    text = "\n".join(l for l in (t1 + t2 + t3).splitlines() if not l.startswith("#") and not l.startswith("@impl luarm")) + "\n"
+    cs = gen_cs("c20cs", seed + 3, tier, 4, 12, calls_C08, CS_CLEAN)[0]
+    text += "\n".join(l for l in cs.splitlines() if not l.startswith("#")) + "\n"
+    rounds = 3 if tier != "thorough" else 10
+    r = subprocess.run([exe, str(rounds)], input=text, capture_output=True, text=True, timeout=1500)
+    lines = r.stdout.splitlines()
+    mism = [l for l in lines if l.startswith("MISMATCH")]
+    summ = [l for l in lines if l.startswith(("threads", "interleaved"))]
+    cov["thread_runs"] = summ
+    ncases = sum(1 for l in text.splitlines() if l.startswith("case "))
+    comparisons = 0
+    for l in summ:
+        p = l.split()
+        comparisons += int(p[p.index("comparisons") + 1])
+    cov["evaluations"] = comparisons
+    cov["distinct_nontrivial"] = ncases
+    cov["samples"] = [{"cases": ncases, "rounds": rounds, "summary": summ}]
+    if r.returncode != 0:
+        viol.append(({"kind": "crash", "message": "thread harness exited with %d: %s" % (r.returncode, r.stderr[-800:]), "case": text}, "crash"))
+    if mism:
+        viol.append(({"kind": "monitor", "message": "result differs from the solo run: " + "; ".join(mism[:5]),
+                      "case": text, "replay_cmd": "<driver_threads> %d < case" % rounds}, "monitor"))
+    # thorough: ThreadSanitizer
+    if tier == "thorough":
+        exe_t = build_harness.build("tsan", "driver_threads", lua)
+        if exe_t is not None:
+            env = dict(os.environ); env["TSAN_OPTIONS"] = "halt_on_error=0 report_signal_unsafe=0"
+            rt = subprocess.run([exe_t, "2"], input=text, capture_output=True, text=True, timeout=3000, env=env)
+            races = rt.stderr.count("WARNING: ThreadSanitizer: data race")
+            cov["tsan_data_races"] = races
+            if races:
+                i = rt.stderr.find("WARNING: ThreadSanitizer")
+                viol.append(({"kind": "monitor", "message": "ThreadSanitizer reports %d data races; first: %s" % (races, rt.stderr[i:i + 2500]),
+                              "case": text}, "monitor"))
+    if extra and not viol:
+        viol.append(({"kind": "unproved", "message": "writable global(s) not in the declared list (tools/globals_expected.json): %s; "
+                      "the no-shared-state model no longer corresponds to the compiled library; the thread runs found no differing result" % extra,
+                      "symbols": {k: sorted(found[k]) for k in extra}}, "no-failing-input-found"))
+    elif extra:
+        viol[0][0]["undeclared_globals"] = extra
+    return {"violations": viol, "coverage": cov}
 
 
 NOT_YET = {}
@@ -1348,6 +1439,11 @@ PROPS = {
             "rule": "random descriptions in the documented format (frames with 0-6 axis lists, the named 3-DoF joints and floating base, fixed frames as omitted / empty joint, joint_frame with r / E / both / omitted, body with optional com / inertia / omitted) printed to Lua text (numbers as exact quotients) and loaded by the real loader after 0-2 other loads in the same process; constraint sets with contact (normal / normal_sets) and loop (axis / axis_sets, stabilization) tables; a malformed stream with a parent name that only an earlier file defines; compared with the equivalent API calls executed by the Lean construction model: structural dump, all parameters, name lookups, constraint-set structure, dynamics",
             "explanation": "correspondence: loader output = API model (exact structural comparison + numeric parameters + dynamics); the Lua interpreter itself is not modelled (descriptions enter as data)",
             "assumptions": COMMON_ASSUMPTIONS + ["Lua 5.3 evaluates (p/q) to the correctly rounded double"]},
+    "C20": {"gen": None, "custom": custom_C20, "level": "other",
+            "rule": "N threads x N private instances (one interpreter with its own Model / ConstraintSet per case: dynamics, kinematics, constrained dynamics, Lua loads with private temporary files) run concurrently for several rounds and compared bit-for-bit with solo runs; neighbouring cases interleaved line by line on one thread; thorough tier: the same under ThreadSanitizer; distinct = number of cases (instances)",
+            "explanation": "theorem: call-granularity non-interference for a world with explicit globals (RbdlProofs/Props/C20.lean); tie: the writable symbols of the freshly compiled library and addons (nm) must equal the declared list tools/globals_expected.json; search: concurrent and interleaved runs vs solo runs, ThreadSanitizer in the thorough tier",
+            "level_text": "partial: the theorem is about call-granularity interleavings of a model whose only shared components are the declared globals; instruction-level races, allocator and libc behaviour are outside the model and are only searched for (threads, TSan)",
+            "assumptions": ["the writable-symbol list extracted by nm is complete for static storage (function-local statics included)"]},
     "C12": {"gen": gen_C12, "rule": RULE_MODELS + "; random contact plane (unit normal, point off the origin)", "explanation": "monitor: definitions of mass, CoM, momentum, energies, ZMP on jets of the pose specification",
             "assumptions": COMMON_ASSUMPTIONS},
 }
